@@ -420,10 +420,14 @@ class Unit:
             derives = [d for d in derives if d not in ("PartialEq", "Eq")]
             head = f"#[derive({', '.join(derives)})]\n" if derives else ""
             name = path.split("::")[-1]
-            tail_txt = (f"\nimpl vstd::std_specs::cmp::PartialEqSpecImpl for {name} {{\n"
+            gm = re.search(r"\b(?:struct|enum)\s+" + re.escape(name) + r"\s*<([^>]*)>", body)
+            gparams = [g.strip().split(":")[0].strip() for g in gm.group(1).split(",")] if gm else []
+            gdecl = ("<" + ", ".join(f"{g}: PartialEq" for g in gparams) + ">") if gparams else ""
+            guse = ("<" + ", ".join(gparams) + ">") if gparams else ""
+            tail_txt = (f"\nimpl{gdecl} vstd::std_specs::cmp::PartialEqSpecImpl for {name}{guse} {{\n"
                         f"    open spec fn obeys_eq_spec() -> bool {{ true }}\n"
                         f"    open spec fn eq_spec(&self, other: &Self) -> bool {{ *self == *other }}\n}}\n"
-                        f"impl PartialEq for {name} {{ #[verifier::external_body] fn eq(&self, other: &Self) -> bool {{ unimplemented!() }} }}\n")
+                        f"impl{gdecl} PartialEq for {name}{guse} {{ #[verifier::external_body] fn eq(&self, other: &Self) -> bool {{ unimplemented!() }} }}\n")
             self.trusted.append(f"derive(PartialEq) on {path} is structural equality (Rust reference)")
             self.log("R13", relfile, src, s, f"derive(PartialEq) on {path}: contract `==` is structural equality, body not expanded")
         text = head + body.lstrip("\n") + tail_txt
